@@ -51,6 +51,15 @@ def type_exact_eq(a, b):
     return a == b
 
 
+def ordered_eq(a, b):
+    """``==`` on plain data that also compares the key order of dicts, at every depth."""
+    if isinstance(a, dict) and isinstance(b, dict):
+        return list(a) == list(b) and all(ordered_eq(a[k], b[k]) for k in a)
+    if isinstance(a, (list, tuple)) and isinstance(b, (list, tuple)):
+        return len(a) == len(b) and all(ordered_eq(x, y) for x, y in zip(a, b))
+    return a == b
+
+
 def depth(x):
     if isinstance(x, dict):
         return 1 + max((depth(v) for v in x.values()), default=0)
